@@ -110,7 +110,7 @@ int open64(const char* p, int fl, ...) {
 static vf::Run* R;
 static std::string g_dir;
 
-struct Payload { std::vector<int> ih; std::vector<double> d; std::vector<float> big; std::vector<std::string> names; };
+struct Payload { std::vector<int> ih; std::vector<double> d; std::vector<float> big; std::vector<std::string> names; std::vector<int> blocks; };
 static Payload payload(int s, int v) {
     Payload p;
     p.ih.assign(10 + s, s * 10 + v);
@@ -118,6 +118,10 @@ static Payload payload(int s, int v) {
     p.big.assign(v ? 1001 : 2, 0.25f * s + v);
     for (size_t i = 0; i < p.big.size(); ++i) p.big[i] += float(i % 7);
     p.names.assign(1 + (s % 3) + 106 * v * (s == 2), "W" + std::to_string(s) + (v ? "B" : "A"));
+    // an array whose length is an exact multiple of the sub-block size (two full blocks): a torn second block has the
+    // same head/tail words as the first one
+    p.blocks.assign((v && s == 1) ? 2000 : 3, 7 * s + v + 1);
+    for (size_t i = 0; i < p.blocks.size(); ++i) p.blocks[i] += int(i % 5);
     return p;
 }
 static void write_step(const std::string& dir, int s, int v, bool fmt) {
@@ -127,6 +131,7 @@ static void write_step(const std::string& dir, int s, int v, bool fmt) {
     r.write("DATA", p.d);
     r.write("BIG", p.big);
     r.write("ZWEL", p.names);
+    r.write("IBLK", p.blocks);
 }
 static std::string fname(const std::string& dir, bool fmt) { return dir + (fmt ? "/CASE.FUNRST" : "/CASE.UNRST"); }
 static std::string slurp(const std::string& fn) { std::ifstream f(fn, std::ios::binary); if (!f) return ""; std::stringstream ss; ss << f.rdbuf(); return ss.str(); }
@@ -171,6 +176,7 @@ static std::string read_check(const std::string& fn, const std::vector<Model>& a
                 if (rst.getRestartData<double>("DATA", s, 0) != p.d) return "DATA of step " + std::to_string(s) + " read back with wrong data";
                 if (rst.getRestartData<float>("BIG", s, 0) != p.big) return "BIG of step " + std::to_string(s) + " read back with wrong data";
                 if (rst.getRestartData<std::string>("ZWEL", s, 0) != p.names) return "ZWEL of step " + std::to_string(s) + " read back with wrong data";
+                if (rst.getRestartData<int>("IBLK", s, 0) != p.blocks) return "IBLK of step " + std::to_string(s) + " read back with wrong data";
             } catch (const std::exception& e) {
                 if (strict) return std::string("reading step ") + std::to_string(s) + " threw: " + e.what();
             }
